@@ -83,8 +83,8 @@ class AabbTree:
         # Insert order
         insert_order = np.array(range(old_filled_len, self.filled_len))
         if pre_insertion_methode == "sort":
-            insert_order = _sort_aabbs(
-                aabbs[old_filled_len : len(self.nodes) - self.filled_len]
+            insert_order = old_filled_len + _sort_aabbs(
+                self.aabbs[old_filled_len : self.filled_len]
             )
         elif pre_insertion_methode == "shuffle":
             np.random.shuffle(insert_order)
